@@ -548,7 +548,7 @@ func (x *Exec) emitObls(cu *FuncUnit, con *Contract) {
 			x.st = sv
 		}
 		if found == 0 {
-			o := x.addObl("emits", base, cu.Decl.Pos(), "false", cl.Text+"   [no fmt.Sprintf call whose format contains this fragment: a literal where a hole is required?]", cl.Props, "0")
+			o := x.addObl("emits", base, cu.Decl.Pos(), "false", cl.Text+"   [no fmt.Sprintf / fmt.Printf call whose format contains this fragment: a literal where a hole is required?]", cl.Props, "0")
 			o.PC = []string{}
 		}
 	}
